@@ -998,7 +998,13 @@ func c05DecRef(r *Run, m *ServerModel) {
 		recv := fi.Decl.Recv.List[0].Names[0].Name
 		zero := "atomic.AddInt64(&" + recv + ".refs, -1) == 0"
 		nClose := 0
-		for _, s := range m.DB.ByFunc[fi] {
+		// (the sites of DecRef itself and of private helpers it calls that are judged in its
+		// context: f.dropParent())
+		var sites []*Site
+		for _, k := range []string{"p9.File.Close", "p9.fidRef.DecRef", "p9.pathNode.removeChild"} {
+			sites = append(sites, m.callsDeep(fi, k)...)
+		}
+		for _, s := range sites {
 			switch s.Callee {
 			case "p9.File.Close":
 				nClose++
@@ -1012,7 +1018,7 @@ func c05DecRef(r *Run, m *ServerModel) {
 		r.check(nClose == 1, "r4", "DecRef: exactly one Close site", fi.Decl.Pos(), "one File.Close call", fmt.Sprintf("%d File.Close calls in DecRef", nClose))
 		// The parent release is there at all.
 		hasParentRel := false
-		for _, s := range m.DB.ByFunc[fi] {
+		for _, s := range sites {
 			if s.Callee == "p9.fidRef.DecRef" {
 				hasParentRel = true
 			}
